@@ -1,17 +1,19 @@
 #!/bin/bash
-# usage: seed_confirm.sh <ID> <n> <srcdir>  — confirm one seeded change independently and store it under /verif/seeded/<ID>/
+# usage: seed_confirm.sh <ID> <n> <srcdir> [<dn>] [<round>] — confirm one seeded change independently and store it as /verif/seeded/<ID>-<dn>/
+#        (patch.diff, demo.py, notes.md, confirm.log, meta.json)
 # steps: patch applies to /repo; unedited suite passes with it; demonstration passes on the clean tree and fails with the change;
-#        the registered quick check reports VIOLATION with the change and passes without. Nothing is committed to /repo.
+#        the registered quick check reports VIOLATION with the change. Nothing is committed to /repo; /repo is restored afterwards.
 set -u
 export VERIF_EVIDENCE_DIR=$(mktemp -d /tmp/seed_evidence.XXXXXX)   # never overwrite the committed evidence with a run on a modified tree
 trap 'rm -rf "$VERIF_EVIDENCE_DIR"' EXIT
-id="$1"; n="$2"; src="$3"; dn="${4:-$2}"   # dn: number under which the change is stored
-out=/verif/seeded/$id; mkdir -p "$out"
+id="$1"; n="$2"; src="$3"; dn="${4:-$2}"; round="${5:-}"
+out=/verif/seeded/$id-$dn; mkdir -p "$out"
 cd /repo || exit 2
 git diff --quiet || { echo "/repo dirty"; exit 2; }
-res() { echo "$1" >> "$out/confirm$dn.log"; }
-: > "$out/confirm$dn.log"
+log="$out/confirm.log"; : > "$log"
+res() { echo "$1" >> "$log"; }
 git apply --check "$src/patch$n.diff" 2>/dev/null || { res "patch does not apply on current tree"; echo "$id/$n: NOAPPLY"; exit 3; }
+if git apply --numstat "$src/patch$n.diff" | awk '{print $3}' | grep -qv '^src/'; then res "patch touches files outside src/"; echo "$id/$n: touches non-src files"; fi
 demo_clean=$(PYTHONPATH=/repo/src timeout 600 /venv/bin/python "$src/demo$n.py" >/dev/null 2>&1; echo $?)
 git apply "$src/patch$n.diff"
 suite=$(timeout 900 /venv/bin/python -m pytest -q -p no:cacheprovider 2>&1 | tail -1)
@@ -25,5 +27,23 @@ res "suite with change: $suite"
 res "demo on clean tree: exit $demo_clean ; demo with change: exit $demo_seeded"
 res "check.py $id --tier quick with change: exit $rc, VIOLATION lines: $viol"
 res "$first"
-cp "$src/patch$n.diff" "$out/patch$dn.diff"; cp "$src/demo$n.py" "$out/demo$dn.py"; cp "$src/notes$n.md" "$out/notes$dn.md" 2>/dev/null
-echo "$id/$dn: suite=[$suite] demo clean=$demo_clean seeded=$demo_seeded check rc=$rc viol=$viol"
+cp "$src/patch$n.diff" "$out/patch.diff"; cp "$src/demo$n.py" "$out/demo.py"; cp "$src/notes$n.md" "$out/notes.md" 2>/dev/null
+ID="$id" DN="$dn" ROUND="$round" SUITE="$suite" DC="$demo_clean" DS="$demo_seeded" RC="$rc" VIOL="$viol" FIRST="$first" python3 - <<'PY'
+import json, os
+e = os.environ
+out = f"/verif/seeded/{e['ID']}-{e['DN']}"
+title = ""
+try:
+    title = open(out + "/notes.md").readline().strip().lstrip("# ").strip()
+except Exception:
+    pass
+m = {"property": e["ID"], "change": int(e["DN"]), "round": int(e["ROUND"]) if e["ROUND"] else None,
+     "origin": "written by a fresh sub-agent that saw only the property text and its own scratch worktree; confirmed independently with tools/seed_confirm.sh",
+     "patch": "patch.diff", "demonstration": "demo.py", "notes": "notes.md", "what": title, "needs_to_manifest": "see notes.md",
+     "first_confirmation": {"suite_with_change": e["SUITE"], "demonstration": f"demo on clean tree: exit {e['DC']} ; demo with change: exit {e['DS']}",
+                            "check": f"check.py {e['ID']} --tier quick with change: exit {e['RC']}, VIOLATION lines: {e['VIOL']}", "first_report": e["FIRST"]},
+     "current_check": f"tools/check.py {e['ID']} --tier quick with the change applied: rc={e['RC']} viol={e['VIOL']}",
+     "how_to_replay": f"git -C /repo apply {out}/patch.diff && cd /verif && /venv/bin/python tools/check.py {e['ID']} --tier quick ; git -C /repo checkout -- ."}
+json.dump(m, open(out + "/meta.json", "w"), indent=1); open(out + "/meta.json", "a").write("\n")
+PY
+echo "$id-$dn: suite=[$suite] demo clean=$demo_clean seeded=$demo_seeded check rc=$rc viol=$viol"
